@@ -56,7 +56,10 @@ def _more_hand_made(P: Any) -> list[tuple[str, list[Any], list[list[Any]], list[
     sets = []
     sets.append(("strings-with-empty-lines", [inf("GENERIC")], [[
         o(0, "hm_a", [pa("SsbOpParamConstString", "\nHello!")]), o(1, "hm_b", [pa("SsbOpParamConstString", "  Title\n\nBody")]),
-        o(2, "hm_c", [pa("SsbOpParamConstString", " x\n"), pa("SsbOpParamLanguageString", {"english": "\n\n", "german": "a\n\n b"})]), o(3, "End", [])]], [None]))
+        o(2, "hm_c", [pa("SsbOpParamConstString", " x\n"), pa("SsbOpParamLanguageString", {"english": "\n\n", "german": "a\n\n b"})]),
+        o(3, "hm_d", [pa("SsbOpParamConstString", " NOTICE\n\n everything must go"), pa("SsbOpParamConstString", "\t\tindented with tabs\n\n\t\tand a gap"),
+                      pa("SsbOpParamLanguageString", {"english": "  Dear Explorer,\n\n  the guild thanks you.\n  See you soon!", "german": "Hallo\n\n  Welt"})]),
+        o(4, "hm_e", [pa("SsbOpParamConstString", "   deep\n  \n   deeper\n "), pa("SsbOpParamConstString", " \n a\n b")]), o(5, "End", [])]], [None]))
     sets.append(("switch-type-ops-as-plain-operations", [inf("GENERIC")], [[
         o(0, "hm_first", []), o(1, "ProcessSpecial", [1, 2, 3]), o(2, "hm_mid", []), o(3, "message_Menu", [V("MENU_X")]), o(4, "SwitchRandom", [5]), o(5, "hm_last", []),
         o(6, "End", [])]], [None]))
@@ -133,7 +136,7 @@ def ssbs_roundtrip_rule(chk: Check, ctx: Any, rule: str, thorough: bool) -> None
         inf = [(t, (lt if t in ("ACTOR", "OBJECT", "PERFORMER") else 0), ln) if isinstance(x, tuple) else x for x in inf for (t, lt, ln) in [x if isinstance(x, tuple) else (None, None, None)]]
         return inf, rs, [n if isinstance(n, str) else None for n in names]
 
-    cases: list[tuple[str, list[Any], list[list[Any]], list[Any]]] = list(_hand_made(P))
+    cases: list[tuple[str, list[Any], list[list[Any]], list[Any]]] = list(_hand_made(P)) + [s for s in _more_hand_made(P) if s[0].startswith("strings-")]
     n_comp = 0
     for i, (fam, prog) in enumerate(all_skeletons(False)):
         if not thorough and i % 12:
